@@ -1,0 +1,39 @@
+//go:build verif
+
+package verifexport
+
+import (
+	iobject "github.com/nspcc-dev/neofs-node/internal/object"
+	"github.com/nspcc-dev/neofs-sdk-go/object"
+	iprotobuf "github.com/nspcc-dev/neofs-sdk-go/proto/protobuf"
+)
+
+// WireExtractHeaderAndPayload is [iobject.ExtractHeaderAndPayload].
+func WireExtractHeaderAndPayload(data []byte) (*object.Object, []byte, error) {
+	return iobject.ExtractHeaderAndPayload(data)
+}
+
+// WireGetNonPayloadFieldBounds is [iobject.GetNonPayloadFieldBounds].
+func WireGetNonPayloadFieldBounds(buf []byte) (iprotobuf.FieldBounds, iprotobuf.FieldBounds, iprotobuf.FieldBounds, error) {
+	return iobject.GetNonPayloadFieldBounds(buf)
+}
+
+// WireGetParentNonPayloadFieldBounds is [iobject.GetParentNonPayloadFieldBounds].
+func WireGetParentNonPayloadFieldBounds(buf []byte) (iprotobuf.FieldBounds, iprotobuf.FieldBounds, iprotobuf.FieldBounds, error) {
+	return iobject.GetParentNonPayloadFieldBounds(buf)
+}
+
+// WireGetParentNonPayloadFieldBoundsHeader is [iobject.GetParentNonPayloadFieldBoundsHeader].
+func WireGetParentNonPayloadFieldBoundsHeader(buf []byte) (iprotobuf.FieldBounds, iprotobuf.FieldBounds, iprotobuf.FieldBounds, error) {
+	return iobject.GetParentNonPayloadFieldBoundsHeader(buf)
+}
+
+// WireGetPayloadLengthHeader is [iobject.GetPayloadLengthHeader].
+func WireGetPayloadLengthHeader(buf []byte) (uint64, error) {
+	return iobject.GetPayloadLengthHeader(buf)
+}
+
+// WireGetTypeHeader is [iobject.GetTypeHeader].
+func WireGetTypeHeader(buf []byte) (object.Type, error) {
+	return iobject.GetTypeHeader(buf)
+}
